@@ -69,7 +69,7 @@ def oracle_scripts(case, obs):
         fake = {"classes": case["classes"], "registry": reg_then}
         if e.get("exception") != oracles.class_name(fake, x["cls"]):
             return "action %d: exception field %r, expected %r" % (h, e.get("exception"), oracles.class_name(fake, x["cls"]))
-        want = progs.SAFEFAIL if x["sr"] else "text%d" % x["text"]
+        want = progs.SAFEFAIL if x["sr"] else progs.exn_text(x["text"])
         if e.get("reason") != want:
             return "action %d: reason %r, expected %r" % (h, e.get("reason"), want)
         ext = oracles.expected_extractor(fake, x["cls"])
